@@ -346,3 +346,69 @@ def _find_group_builder(idx, f, S: Sem, grp_name: str, ikv: str, at: int):
         if isinstance(elt, ast.ListComp):
             return from_comp(S, f, elt, ds[0].node)
     return None
+
+
+def completion_blocks(idx, f: FunctionInfo):
+    """The 'everything below / above the scanned window' blocks added next to the in-range groups:
+    `W[(LO, HI)] = value` stores whose LO or HI comes from get_bands_below_range / get_bands_above_range.
+    → [(kind 'sea' | 'anti', store stmt, Sem, groups name, [alternatives of the clamped bound], guard ok)]"""
+    S = Sem(idx, f)
+    S.inline_helpers = False
+    gdefs = [s for s in ast.walk(f.node) if isinstance(s, ast.Assign) and len(s.targets) == 1 and isinstance(s.targets[0], ast.Name)
+             and isinstance(s.value, ast.Call) and call_name(s.value).split(".")[-1] == "get_bands_in_range"]
+    if len(gdefs) != 1:
+        raise AnalysisError(f"{f.short}: expected one `groups = get_bands_in_range(…)`, found {len(gdefs)}")
+    G = gdefs[0].targets[0].id
+    out = []
+    for st in ast.walk(f.node):
+        if not (isinstance(st, ast.Assign) and len(st.targets) == 1 and isinstance(st.targets[0], ast.Subscript) and isinstance(st.targets[0].slice, ast.Tuple)
+                and len(st.targets[0].slice.elts) == 2):
+            continue
+        lo, hi = st.targets[0].slice.elts
+        at = S.cfg.node(st)
+        S.keep_names = {G}
+        alts_lo = S.alternatives(lo, at)
+        alts_hi = S.alternatives(hi, at)
+        S.keep_names = set()
+        has = lambda alts, fn: any(isinstance(c, ast.Call) and call_name(c).split(".")[-1] == fn for a in alts for c in ast.walk(a))
+        conds = [(t, p) for t, p, _ in S.conditions(st, resolve=False)]
+        nonempty = any(p and t.replace(" ", "") in (f"{norm(hi)}>{norm(lo)}", f"{norm(lo)}<{norm(hi)}") for t, p in conds) or \
+            (norm(lo) == "0" and any(p and t.replace(" ", "") in (f"{norm(hi)}>0", f"0<{norm(hi)}") for t, p in conds))
+        if has(alts_hi, "get_bands_below_range") and not has(alts_hi, "get_bands_above_range"):
+            out.append(("sea", st, S, G, alts_hi, nonempty))
+        elif has(alts_lo, "get_bands_above_range"):
+            out.append(("anti", st, S, G, alts_lo, nonempty))
+    return out
+
+
+def check_completion_blocks(rule, idx, f: FunctionInfo, want=("sea",)) -> None:
+    """sea: the filled block [lo, HI) ends at min(number of bands below the window, START of the first in-range group);
+    anti: the empty block [LO, hi) starts at max(first band above the window, END of the last in-range group)."""
+    blocks = completion_blocks(idx, f)
+    for kind in want:
+        mine = [b for b in blocks if b[0] == kind]
+        rule.expect(len(mine) == 1, f"{f.qualname}: {kind} completion block located", f, f.node,
+                    f"{f.qualname}: expected one `weights[(lo, hi)] = …` {kind} completion block, found {len(mine)}")
+        if len(mine) != 1:
+            continue
+        _k, st, S, G, alts, nonempty = mine[0]
+        fn, agg, want_idx = ("get_bands_below_range", "min", (f"{G}[0][0]",)) if kind == "sea" else ("get_bands_above_range", "max", (f"{G}[-1][-1]", f"{G}[-1][1]"))
+        clamped = []
+        bad = None
+        for a in alts:
+            if isinstance(a, ast.Call) and call_name(a) == agg and len(a.args) == 2:
+                texts = [norm(x).replace(" ", "") for x in a.args]
+                other = [t for x, t in zip(a.args, texts) if not (isinstance(x, ast.Call) and call_name(x).split(".")[-1] == fn)]
+                if len(other) == 1 and other[0] in [w.replace(" ", "") for w in want_idx]:
+                    clamped.append(a)
+                else:
+                    bad = a
+        edge = "START of the first" if kind == "sea" else "END of the last"
+        rule.check(bool(clamped) and bad is None,
+                   f"{f.qualname}: the {'filled' if kind == 'sea' else 'empty'} block is clamped at the {edge} in-range group", f, st,
+                   f"the {'fully-occupied' if kind == 'sea' else 'empty'} block `{norm1(st.targets[0])}` is clamped with "
+                   f"`{norm1(bad) if bad is not None else 'nothing'}` instead of the {edge} in-range group "
+                   f"({' / '.join(want_idx)}): a multi-band group straddling the edge of the scanned window is cut — its members are counted twice "
+                   f"or traced in a partial (gauge-dependent) subspace")
+        rule.check(nonempty, f"{f.qualname}: the {kind} block is added only when it is non-empty", f, st,
+                   f"`{norm1(st)}` is not guarded by a `hi > lo` test: an empty group (ib, ib) would be traced")
